@@ -127,8 +127,12 @@ where
     while n < n_max {
         let guess = f(initial);
         let new_guess = f(guess);
-        let diff = initial
-            - (guess - initial).powi(2) / (new_guess - N::from_f64(2.0).unwrap() * guess + initial);
+        let denom = new_guess - N::from_f64(2.0).unwrap() * guess + initial;
+        if denom.is_zero() {
+            // The iteration can not be improved further
+            return Ok(new_guess);
+        }
+        let diff = initial - (guess - initial).powi(2) / denom;
         if (diff - initial).abs() <= tol {
             return Ok(diff);
         }
